@@ -15,6 +15,15 @@ pub struct Reader {
     len: usize,
     _region: Region,
     _db: Database,
+    #[cfg(anydb_verif)]
+    verif_id: u64,
+}
+
+#[cfg(anydb_verif)]
+impl Drop for Reader {
+    fn drop(&mut self) {
+        crate::verif::unregister_reader(self.verif_id);
+    }
 }
 
 impl Reader {
@@ -32,12 +41,17 @@ impl Reader {
         // because `_db` (the Arc) outlives `mmap` (the guard) — see struct field order.
         let mmap: RwLockReadGuard<'static, MmapMut> = unsafe { std::mem::transmute(db.mmap()) };
 
+        #[cfg(anydb_verif)]
+        let verif_id = crate::verif::register_reader(unsafe { mmap.as_ptr().add(start) }, &region);
+
         Self {
             _db: db,
             _region: region,
             start,
             len,
             mmap,
+            #[cfg(anydb_verif)]
+            verif_id,
         }
     }
 
@@ -45,6 +59,8 @@ impl Reader {
     /// Caller must ensure `offset + len <= self.len()`.
     #[inline(always)]
     pub fn unchecked_read(&self, offset: usize, len: usize) -> &[u8] {
+        #[cfg(anydb_verif)]
+        crate::verif::range_access(&self._region, offset, len);
         let start = self.start() + offset;
         let end = start + len;
         &self.mmap[start..end]
